@@ -97,6 +97,32 @@ theorem cone_shift {A a u v : Pt} (d : Pt) (h : Cone A a (u - v)) : Cone A a (u 
   have : u + d - (v + d) = u - v := by pt_arith
   rw [this]; exact h
 
+/-- A drain that succeeds within its budget is what `toListFuel` (take-`n` semantics) returns. -/
+theorem toListFuel_of_drainFuel : ∀ (fuel : Nat) (it : ThickPointsIt) (ps : List Pt),
+    it.drainFuel fuel = some ps → it.toListFuel fuel = some ps := by
+  intro fuel
+  induction fuel with
+  | zero => intro it ps h; simp [ThickPointsIt.drainFuel] at h
+  | succ n ih =>
+    intro it ps h
+    rw [ThickPointsIt.drainFuel] at h
+    rw [ThickPointsIt.toListFuel]
+    cases hn : it.next with
+    | none => rw [hn] at h; cases h
+    | some r =>
+      rw [hn] at h
+      cases r with
+      | none => simpa using h
+      | some pr =>
+        obtain ⟨p, it'⟩ := pr
+        simp only at h ⊢
+        cases hd : ThickPointsIt.drainFuel n it' with
+        | none => rw [hd] at h; cases h
+        | some qs =>
+          rw [hd] at h
+          rw [ih it' qs hd]
+          exact h
+
 /-- **Every pixel of a stroked line lies inside its styled bounding box.** -/
 theorem thickPoints_in_bbox (l : Line) (w : Nat) (ps : List Pt) (hps : thickPoints l w = some ps)
     (bb : Rect) (hbb : styledBoundingBox l w = some bb) : ∀ q ∈ ps, bb.contains q = true := by
@@ -111,6 +137,7 @@ theorem thickPoints_in_bbox (l : Line) (w : Nat) (ps : List Pt) (hps : thickPoin
     subst hps; intro q hq; cases hq
   simp only [hw0, ↓reduceIte] at hps
   intro q hq
+  have hps := toListFuel_of_drainFuel _ _ _ hps
   have hacc := toListFuel_acc (ctxOf l) hv l.start _ _ ps ⟨_, _, hg0⟩ hps q hq
   rcases hacc with hacc | ⟨F, x, hx, hqx⟩
   · simp [parPts] at hacc
